@@ -16,7 +16,9 @@ EXTENDS SmSem
 
 CONSTANTS
   VerifyBeforeFormula,   \* nodes call _verify_domain_constraints before the formula
-  ResetRecurses          \* _reset_evaluation_cache descends into all children
+  ResetRecurses,         \* _reset_evaluation_cache descends into all children
+  ResetStopsAtUncached   \* MUTANT when TRUE: the reset returns at a node whose own value is not cached ("nothing cached beneath it":
+                         \* false after an evaluation that was aborted by an exception - seeds C02_r3mut1 C03_r3mut1 C14_r3mut1)
 
 None == [k |-> "none"]
 IsErr(v) == v.k \in {"undef", "missing", "pyerr"}       \* an exception in the implementation
@@ -88,7 +90,7 @@ Coord(p,x) == IF x \in DOMAIN p THEN Lit(p[x]) ELSE Missing
 \* ---- _reset_evaluation_cache: clears this node, then every child (top-down, the whole sub-DAG)
 RECURSIVE Reset(_,_,_)
 Reset(h,i,m) == LET n == h[i] IN
-   IF n.op \in LeafOps THEN m
+   IF n.op \in LeafOps \/ (ResetStopsAtUncached /\ m[i] = None) THEN m
    ELSE LET m1 == [m EXCEPT ![i] = None] IN
         IF ResetRecurses THEN FoldLeft(LAMBDA acc, c: Reset(h,c,acc), m1, HKids(n)) ELSE m1
 
